@@ -261,6 +261,18 @@ pub fn stream_family(level: u32) -> Vec<Script> {
         out.push(Script { family: "STREAM".into(), name: sname(&["STREAM", "recursive-visit", p0, p1, "seq"]), ast, peers: peers3() });
     }
     out.extend(route_family(level));
+    // a stream derived from another one inside a fold (`ap i $t`), then folded itself with a call chain per value:
+    // the positions of the ap entries depend on the local order of $s, which differs between peers
+    for (p1, p2) in [("A", "B"), ("B", "C"), ("B", "A")] {
+        if level == 0 && p1 == "B" && p2 == "A" {
+            continue;
+        }
+        let writers = par(call(p1, "f1", vec![], st("$s")), call(p2, "f2", vec![], st("$s")));
+        let copy = fold(Arg::Stream("$s".into()), "i", seq(I::Ap { src: var("i"), dst: "$t".into() }, I::Next("i".into())));
+        let work = fold(Arg::Stream("$t".into()), "o", par(seq(call(p1, "work", vec![var("o")], sc("x")), call(p2, "done", vec![var("x")], sc("y"))), I::Next("o".into())));
+        out.push(Script { family: "STREAM".into(), name: sname(&["STREAM", "derived-stream", p1, p2, "par"]), ast: par(writers.clone(), par(copy.clone(), work.clone())), peers: peers3() });
+        out.push(Script { family: "STREAM".into(), name: sname(&["STREAM", "derived-stream", p1, p2, "seq"]), ast: seq(writers, seq(copy, work)), peers: peers3() });
+    }
     out
 }
 
